@@ -39,6 +39,7 @@ func Run(c *lib.Ctx) {
 		"frames: packets, ports, symbols and processes are harness-assigned integers; the order of hook events fed to the model is the order in which the harness's own packet hooks (installed like the agent's, running just before them under the same endpoint lock) saw them; columns are compared per port (the order of frames of different ports in Agent.Frames depends on goroutine scheduling and is not compared), Agent.Frames is read only at quiescence",
 		"frames: the number of requests that passed a port comes from the harness's reference reading of the workflow (one per Write on an out-port whatever the number of its links, one per packet delivered to an in-port), not from the packet hooks: the oracle demands exactly one complete frame per request at quiescence, the model is fed one request and one answer event per request (a hook call beyond that is dropped and counted), and at the sources / sinks the answer of frame i must be the i-th response received / answer given, by identity",
 		"frames, fan-in: the requests of an in-port are the packets in the order its reader delivered them (read off the reader by identity at a sink; identified by the value the node then emits at an observed OneToOne node) and the k-th packet leaving through the port answers the k-th delivered one; a frame must pair a request with that answer whatever order the port's inbound hooks ran in; directed cases add a harness inbound hook after the agent's that parks the first of two racing writers for ≤150 ms (or yields the processor, 25–60 rounds)",
+		"frames: after its last pending request is answered a sink calls Receive once more with probability 1/4 (op d): the call must be refused and is no answer – an answer event with no unanswered request on its port is not fed to the model; directed cases: writes refused by every (closed) linked reader followed by a live reader linked to the same writer (exactly one frame per accepted request), and a breakpoint added to an already closed debugger (a further Close must leave no packet paused: AddBreakpoint-after-Close is an order of add / close calls with a packet paused when Close is called, hence inside the statement)",
 		"frames: that the k-th answer on a port answers the k-th request on it is C01's contract (Reader.Receive / Writer.receive are FIFO by construction); the oracle and theorem C19.frame_pairs take it as the hypothesis",
 		"transparency is a differential over deterministic hand-over schedules: after every step the harness waits for exactly the events its reference reading of the workflow predicts (actions entered in gated nodes, sink arrivals, source responses) before the next step, the same on both runs; goroutine interleavings inside one step are the Go scheduler's. ManyToOne workflows keep one request in flight per source (a queued unpaired packet behind unanswered ones is C02's subject)",
 		"frames recorded for a process that was terminated with requests in flight (the exit hook deletes frames[proc], later drop answers re-create it) are reported in the evidence as an observation, not judged: C19 speaks about pairing, C05 about what outlives a process",
@@ -48,6 +49,11 @@ func Run(c *lib.Ctx) {
 	}
 	c.Trusted = []string{"Go scheduler / channels / sync (the small-step machine of Uniflow.Breakpoint is a model of them)", "harness/c19 reference reading of the workflows (which sink sees which value)"}
 	rng := lib.NewRNG(c.Seed)
+	lapT := time.Now()
+	lap := func(what string) {
+		fmt.Fprintf(os.Stderr, "[C19] %-28s %5.1fs\n", what, time.Since(lapT).Seconds())
+		lapT = time.Now()
+	}
 	sc := &lib.Script{}
 	var fails []lib.OracleFail
 
@@ -94,6 +100,7 @@ func Run(c *lib.Ctx) {
 		c.Count(slow(c, "frames", func() string { return framesCase(c, fs, nsess, ops, early, sc, &fails) }))
 	}
 
+	lap("corpus + frames")
 	// (2b) fan-in: two writers of one process racing into one in-port
 	if !only {
 		for i := 0; i < c.Scale(6, 40); i++ {
@@ -108,6 +115,17 @@ func Run(c *lib.Ctx) {
 		}
 	}
 
+	lap("fan-in")
+	// (2c) writes nobody accepts, then a live reader; a breakpoint added to a closed debugger
+	if !only {
+		for i := 0; i < c.Scale(6, 60); i++ {
+			r := rng.Fork()
+			c.Count(slow(c, "refused write", func() string { return refusedWriteCase(c, r, &fails) }))
+		}
+		c.Count(slow(c, "add after close", func() string { return addAfterCloseCase(c, &fails) }))
+	}
+
+	lap("refused write / add-after-close")
 	// (1) transparency differential
 	n = c.Scale(80, 3000)
 	if only {
@@ -121,6 +139,7 @@ func Run(c *lib.Ctx) {
 		c.Count(slow(c, "transparency", func() string { return transparencyCase(c, fs, nsess, ops, &fails) }))
 	}
 
+	lap("transparency")
 	// (1b) processes that terminate while a port of theirs is being opened
 	if !only {
 		for i := 0; i < c.Scale(24, 300); i++ {
@@ -128,6 +147,7 @@ func Run(c *lib.Ctx) {
 		}
 	}
 
+	lap("open-exit")
 	// (3) breakpoints
 	scs := corpusBP
 	if !only {
@@ -153,6 +173,7 @@ func Run(c *lib.Ctx) {
 		}
 	}
 
+	lap("breakpoints")
 	var ms []lib.Mismatch
 	if c.Proof.DriverBuilt {
 		var err error
